@@ -336,6 +336,32 @@ def ad_cells(tier):
 
         cells.append(Cell("%s/ad_finite" % label, strat, check, lambda c: True, classify_alg, quick=60, thorough=800,
                           build=lambda gi=gi, key=key: ad_fn(gi, key).build()))
+
+        # the AD Jacobian is the derivative: agreement with central differences of the function itself
+        strat_v = {s_: gens.algebra_element(gi.alg_layout, rot_strata=(s_,), max_angle=1.0, scales=SCALES, se2_max=1.0)
+                   for s_ in ("tiny", "switch", "small")}
+
+        def check_val(case, gi=gi, key=key, kind=kind, label=label):
+            x = gens.encode_algebra(case)
+            arg = np.array(exact_exp_params(gi, x), float) if kind == "grp" else x
+            J = ad_fn(gi, key)(arg)
+            f = gi.fn(key)
+            n = arg.shape[0]
+            h = 1e-6
+            Jn = np.zeros_like(np.atleast_2d(J))
+            for i in range(n):
+                e = np.zeros(n)
+                e[i] = h
+                yp = np.asarray(f(arg + e)).reshape(-1, order="F")
+                ym = np.asarray(f(arg - e)).reshape(-1, order="F")
+                Jn[:, i] = (yp - ym) / (2 * h)
+            err = float(np.max(np.abs(np.atleast_2d(J) - Jn)))
+            sc = 1.0 + float(np.max(np.abs(Jn)))
+            if not np.all(np.isfinite(J)) or err > 2e-5 * sc:
+                raise Violation("casadi.jacobian of %s differs from central differences of the function by %.3e (scale %.3g)" % (
+                    label, err, sc), arg=arg.tolist())
+
+        cells.append(Cell("%s/ad_value" % label, strat_v, check_val, nt_alg, classify_alg, quick=30, thorough=600))
     return cells
 
 
